@@ -1,6 +1,7 @@
 package scen
 
 import (
+	"encoding/json"
 	"fmt"
 	"net/netip"
 	"sort"
@@ -274,6 +275,28 @@ func runNDSpoof(e *exec) {
 	closeInv, tClose := simrt.Seq(), now()
 	w.ICMP6.Close()
 	closeRet := simrt.Seq()
+	// Forging after Close is judged as it happens, by the wire monitor: a loop that ignores Close
+	// may flood the wire and the run would never reach the oracle below.
+	own0 := refdec.MAC(u.MACs[world.MOwn])
+	noStalls := e.sc.Cfg.StallDen == 0 // a stalled loop may be past its check when Close returns
+	c.react = func(c *conc, o world.Out) {
+		f := o.F
+		if noStalls && f.ICMP6 != nil && f.ICMP6.Type == 136 && f.ND != nil && f.ND.TargetLLA != nil && *f.ND.TargetLLA == own0 && o.Seq > closeRet && time.Duration(o.Time) > tClose {
+			e.violate("C14.close", "forged-na-after-close", fmt.Sprintf("forged NA to %s at %v after Close returned at %v", f.Dst, time.Duration(o.Time), tClose))
+			b, _ := json.Marshal(e.finish())
+			simrt.Result(b)
+		}
+	}
+	if e.sc.Seed%2 == 0 {
+		// a caller that hunts after Close gets nothing started, whatever arrives afterwards
+		simrt.Sleep(int64(time.Second))
+		w.ICMP6.StartHunt(targetAddr(0, 0))
+		w.ICMP6.StartHunt(targetAddr(1, 1))
+		ra, rmac, rip := raOf(u, Op{N: 1, P: 1})
+		dst := netip.MustParseAddr("ff02::1")
+		simrt.NetInject(0, fb.Eth(fb.MulticastMAC6(dst), rmac, 0x86dd, fb.IPv6(rip, dst, 58, 255, fb.ICMP6(rip, dst, 134, 0, ra.Body()))))
+		e.probe("starthunt_after_close")
+	}
 	simrt.Sleep(int64(8 * time.Second))
 	simrt.Settle()
 	leaked := libraryTasksExcept(sessionSites)
